@@ -230,4 +230,20 @@ META = {
         "stub": STUB_WAMP,
         "design_ref": "DESIGN.md section 4, C18",
     },
+    "C20": {
+        "title": "End-to-end encrypted payloads are recovered exactly or rejected",
+        "budgets": {"quick": (100000, 60), "thorough": (2500000, 1200)},
+        "variants": ALL_VARIANTS,
+        "rule": ("batch prefix: every single-octet alteration (positions 0..119) of the ciphertext in each of the four "
+                 "payload directions (event, invocation, result, error); then generated runs: two real sessions with "
+                 "cryptobox KeyRings in 5 layouts (default key, per-prefix key, prefix+default, originator-only / "
+                 "responder-only keys, responder holding a wrong key), 2-7 publishes / calls on covered and uncovered "
+                 "URIs, endpoints returning or raising, the router forwarding in any order and tampering per direction "
+                 "(flip an octet, substitute a genuine ciphertext of another URI, re-label the envelope URI); "
+                 "nacl nonce generation seeded; non-trivial = at least one operation; distinct = hash of (action kind, "
+                 "per-side state) sequence"),
+        "real": REAL_WAMP + ["autobahn.wamp.cryptobox KeyRing/Key on PyNaCl"],
+        "stub": STUB_WAMP,
+        "design_ref": "DESIGN.md section 4, C20",
+    },
 }
